@@ -28,6 +28,7 @@ fn base_weights(chain: bool) -> OpWeights {
 		disconnect: 2,
 		reconnect: 5,
 		timer: 3,
+		setfee: 2,
 		async_toggle: 1,
 		complete: 4,
 		pump: 7,
